@@ -14,6 +14,7 @@ var registry = map[string]core.Harness{
 	"C24": CON{},
 	"C28": AI{},
 	"C33": HIST{},
+	"C47": UND{},
 }
 
 func TestSim(t *testing.T) { core.WorkerMain(t, registry) }
